@@ -19,6 +19,11 @@ CHECKS.update({
         text="Exploration. Generated histories of quad add/remove/pattern remove/remove-from-all/addN/graph()/remove_graph over five graph names (default, IRIs, a bnode, an IRI colliding with the bnode label) run on Dataset(default_union off/on) and ConjunctiveGraph; after every operation quads(), graphs(), three kinds of per-graph view, quad membership, reads restricted to existing/empty/unknown graphs and the merged view are compared with a name->set model; all short histories are enumerated. One listed finding (restricted quads() repeats a shared triple per graph) is carved out exactly.",
         note="Trusted: the model, term keys. Existence of graphs emptied by triple removal is not judged. Memory store only.",
         ref="DESIGN.md §3 C02"),
+    "C07": dict(
+        technique="runtime monitoring: algebraic laws (equivalence, hash coherence, kind order, string order, sort, pickle/copy, n3 read-back) evaluated over generated near-equal term pairs and collections",
+        text="Exploration. Hundreds of thousands of generated pairs/triples of terms (60% near-equal: same string in another kind, language tags differing in case, other lexical form of one value, xsd:string vs plain) are checked against the laws themselves: == is reflexive/symmetric/transitive and agrees with the framework's own (kind, lexical, datatype, lower(lang)) key, equal terms hash alike and collapse in sets, dict keys and a Graph, cross-kind order is bnode<variable<IRI<literal, IRIs/bnodes order as strings, sorted() of mixed collections never raises and is reproducible over permutations; every term survives copy, deepcopy, pickle (all protocols) and NodePickler unchanged, and its n3() text is read back as the same term by from_n3, the Turtle parser and the SPARQL parser.",
+        note="Literal-vs-literal order is only required not to raise. For literals built with normalize=False the text read-back is judged against the normalised literal (documented construction-time normalisation).",
+        ref="DESIGN.md §3 C07"),
     "C17": dict(
         technique="runtime monitoring: bind/qname histories with two-way-map invariants and expand(compact(x)) = x checked at every quiescent point",
         text="Exploration. Generated histories of bind() with all flag combinations over nested/overlapping namespaces, interleaved with qname/curie/compute_qname(_strict)/normalizeUri/n3 probes, Turtle parses, serialisations that generate prefixes and reset(), on both stores; after each step the listing and both lookups must agree and every compact form must use a currently bound prefix and expand back. All short bind histories are enumerated.",
